@@ -87,7 +87,9 @@ from .ast import (
 )
 
 def quote(s):
-    assert s.replace('_', '').replace('.', '').replace('/', '').replace('-', '').isalnum(), \
+    stripped = s.replace('_', '').replace('.', '').replace('/', '').replace('-', '')
+    # (a name may consist of underscores only)
+    assert stripped == '' or stripped.isalnum(), \
         'Only use quote() with names or IDs in Stone.'
     return "'%s'" % s
 
